@@ -53,7 +53,7 @@ def gen_segment_history(rng, n, strict=False, reject=False):
         if reject and rng.random() < .35:
             ops.append(rng.choice([
                 ['add_wrongclass'], ['set_wrongname', 'nk1_2' if seg != 'NK1' else 'pid_3', 'X'], ['add_otherlevel', name, val],
-                ['ctor_refused', name, rng.choice(['FOO', 'XYZ', 'Q1'])],
+                ['ctor_refused', name, rng.choice(['FOO', 'XYZ', 'Q1'])], ['set_basedt_foreign', name.lower()], ['children_assign_zfield', name, val],
                 ['add_otherversion', name, val], ['del', '%s_%d' % (seg.lower(), 19)], ['set', 'foo_1', 'X'], ['set_elem_wrongname', name.lower()],
                 ['replace_otherlevel', name.lower(), val], ['add_overflow', '%s_1' % seg, '1'], ['set_invalid_strict', name.lower()],
                 ['datatype_populated', name.lower()], ['deli', name.lower(), 7], ['setparent_otherlevel', name, val], ['set_basedt_refused', name.lower()], ['set_basedt_refused', name.lower(), 'long'], ['children_assign_refused', name, val]]))
@@ -513,6 +513,19 @@ def run_history(h):
                 good = Child(op[1], version=v, validation_level=lvl)
                 good.value = op[2]
                 bad = Child(op[1], version=v, validation_level=other_lvl)
+                extra.extend([good, bad])
+                root.children = [good, bad]
+            elif kind == 'set_basedt_foreign':
+                # a base-datatype OBJECT whose class is no base datatype of the element's version (TN: 2.1-2.4) — the refusal is a ChildNotFound
+                # raised while the reference of the new child is looked up: whatever its class, a refusal leaves no empty child behind (seed C12-i)
+                import hl7apy as _h
+                TN = _h.load_library('2.4').BASE_DATATYPES['TN']
+                setattr(root, op[1], TN('5551234'))
+            elif kind == 'children_assign_zfield':
+                # root.children = [good, <a Z field>]: on a segment that is no Z segment the second element is refused with ChildNotFound
+                good = Child(op[1], version=v, validation_level=lvl)
+                good.value = op[2]
+                bad = Field('ZPD_3', version=v, validation_level=lvl)
                 extra.extend([good, bad])
                 root.children = [good, bad]
             elif kind == 'set_basedt_refused':
